@@ -28,6 +28,12 @@ pub enum Enc {
     ExpCo,
     Hybrid,
     Stable,
+    /// The solver's constructor that takes no encoder (`new_with_sat_solver_factory`).
+    Default,
+    /// `encodings::new_default_complete_constraints_encoder()`, the encoder the solvers' doc examples pass.
+    HelperCo,
+    /// `encodings::new_default_conflict_freeness_encoder()`.
+    HelperCf,
 }
 
 impl Enc {
@@ -41,6 +47,9 @@ impl Enc {
             Enc::ExpCo => "exp-co",
             Enc::Hybrid => "hybrid",
             Enc::Stable => "stable",
+            Enc::Default => "constructor-default",
+            Enc::HelperCo => "helper-default-complete",
+            Enc::HelperCf => "helper-default-conflict-freeness",
         }
     }
     pub fn from_name(s: &str) -> Option<Enc> {
@@ -53,13 +62,18 @@ impl Enc {
             Enc::ExpCo,
             Enc::Hybrid,
             Enc::Stable,
+            Enc::Default,
+            Enc::HelperCo,
+            Enc::HelperCf,
         ]
         .into_iter()
         .find(|e| e.name() == s)
     }
     pub fn make<T: HLabel>(self) -> Box<dyn ConstraintsEncoder<T>> {
         match self {
-            Enc::None => panic!("harness: no encoder"),
+            Enc::None | Enc::Default => panic!("harness: no encoder object for this configuration"),
+            Enc::HelperCo => crustabri::encodings::new_default_complete_constraints_encoder(),
+            Enc::HelperCf => crustabri::encodings::new_default_conflict_freeness_encoder(),
             Enc::AuxCf => Box::new(aux_var_constraints_encoder::new_for_conflict_freeness()),
             Enc::AuxAdm => Box::new(aux_var_constraints_encoder::new_for_admissibility()),
             Enc::AuxCo => Box::new(aux_var_constraints_encoder::new_for_complete_semantics()),
@@ -69,6 +83,17 @@ impl Enc {
             Enc::Stable => Box::<DefaultStableConstraintsEncoder>::default(),
         }
     }
+    /// The concrete encoder a configuration stands for with a given solver type
+    /// (`Default` = what the constructor without encoder argument uses).
+    pub fn resolved(self, ty: SolverType) -> Enc {
+        match (self, ty) {
+            (Enc::Default, SolverType::Stage) => Enc::AuxCf,
+            (Enc::Default, SolverType::Stable) => Enc::Stable,
+            (Enc::Default, _) => Enc::AuxCo,
+            (e, _) => e,
+        }
+    }
+
     /// The `--encoding` value that selects this encoder on the command line (None = flag absent only).
     pub fn cli_flag(self) -> Option<&'static str> {
         match self {
@@ -155,11 +180,11 @@ impl SolverType {
         match self {
             SolverType::Grounded => &[Enc::None],
             SolverType::Stable => &[Enc::Stable],
-            SolverType::Stage => &[Enc::AuxCf, Enc::ExpCf],
+            SolverType::Stage => &[Enc::AuxCf, Enc::ExpCf, Enc::Default, Enc::HelperCf],
             SolverType::Preferred if k == QKind::SE => {
-                &[Enc::AuxAdm, Enc::AuxCo, Enc::ExpCo, Enc::Hybrid]
+                &[Enc::AuxAdm, Enc::AuxCo, Enc::ExpCo, Enc::Hybrid, Enc::Default, Enc::HelperCo]
             }
-            _ => &[Enc::AuxCo, Enc::ExpCo, Enc::Hybrid],
+            _ => &[Enc::AuxCo, Enc::ExpCo, Enc::Hybrid, Enc::Default, Enc::HelperCo],
         }
     }
 }
@@ -210,6 +235,7 @@ impl<'a, T: HLabel> StaticSolver<'a, T> {
     ) -> Self {
         match ty {
             SolverType::Grounded => StaticSolver::GR(GroundedSemanticsSolver::new(af)),
+            SolverType::Complete if enc == Enc::Default => StaticSolver::CO(CompleteSemanticsSolver::new_with_sat_solver_factory(af, factory)),
             SolverType::Complete => StaticSolver::CO(
                 CompleteSemanticsSolver::new_with_sat_solver_factory_and_constraints_encoder(
                     af,
@@ -217,6 +243,7 @@ impl<'a, T: HLabel> StaticSolver<'a, T> {
                     enc.make(),
                 ),
             ),
+            SolverType::Preferred if enc == Enc::Default => StaticSolver::PR(PreferredSemanticsSolver::new_with_sat_solver_factory(af, factory)),
             SolverType::Preferred => StaticSolver::PR(
                 PreferredSemanticsSolver::new_with_sat_solver_factory_and_constraints_encoder(
                     af,
@@ -227,6 +254,7 @@ impl<'a, T: HLabel> StaticSolver<'a, T> {
             SolverType::Stable => {
                 StaticSolver::ST(StableSemanticsSolver::new_with_sat_solver_factory(af, factory))
             }
+            SolverType::SemiStable if enc == Enc::Default => StaticSolver::SST(SemiStableSemanticsSolver::new_with_sat_solver_factory(af, factory)),
             SolverType::SemiStable => StaticSolver::SST(
                 SemiStableSemanticsSolver::new_with_sat_solver_factory_and_constraints_encoder(
                     af,
@@ -234,6 +262,7 @@ impl<'a, T: HLabel> StaticSolver<'a, T> {
                     enc.make(),
                 ),
             ),
+            SolverType::Stage if enc == Enc::Default => StaticSolver::STG(StageSemanticsSolver::new_with_sat_solver_factory(af, factory)),
             SolverType::Stage => StaticSolver::STG(
                 StageSemanticsSolver::new_with_sat_solver_factory_and_constraints_encoder(
                     af,
@@ -241,6 +270,7 @@ impl<'a, T: HLabel> StaticSolver<'a, T> {
                     enc.make(),
                 ),
             ),
+            SolverType::Ideal if enc == Enc::Default => StaticSolver::ID(IdealSemanticsSolver::new_with_sat_solver_factory(af, factory)),
             SolverType::Ideal => StaticSolver::ID(
                 IdealSemanticsSolver::new_with_sat_solver_factory_and_constraints_encoder(
                     af,
